@@ -115,6 +115,24 @@ def run(tier):
     for i in range(len(allv)):
         records.append({"defs": base, "variants": [base_norm, norm_by_def(res[2 * i], base), norm_by_def(res[2 * i + 1], base)]})
         meta.append({"part": "B", "variant": allv[i], "files": docs[2 * i]["files"]})
+    # B2: two source directories whose files include the same spelling, which denotes a different file in each directory;
+    #     the named files in both orders (the findings of every definition must not depend on the order)
+    def two_dirs(order):
+        lib = lambda d, extra: HEAD + "template Lib%s() {\n  signal input a;\n  signal output o;\n  signal output %s;\n  o <== a;\n  %s <-- a + 1;\n}\n" % (d, extra, extra)
+        main = lambda d: HEAD + 'include "lib.circom";\ntemplate Use%s() {\n  signal input a;\n  signal output o;\n  component c = Lib%s();\n  c.a <== a;\n  o <== c.o;\n}\n' % (d, d)
+        fs = [{"path": "da/main.circom", "named": True, "text": main("A")}, {"path": "db/main.circom", "named": True, "text": main("B")}]
+        if order:
+            fs.reverse()
+        return fs + [{"path": "da/lib.circom", "named": False, "text": lib("A", "auxa")}, {"path": "db/lib.circom", "named": False, "text": lib("B", "auxb")}]
+    write_ndjson(pin, [{"id": i, "files": two_dirs(i % 2)} for i in range(4)])
+    vh(["pipeline", pin, pout], timeout=600)
+    tdocs = list(read_ndjson(pout))
+    tnames = ["UseA", "UseB"]
+    if any("panic" in d for d in tdocs):
+        v.violation("determinism:panic", {"part": "B", "files": two_dirs(0)})
+    else:
+        records.append({"defs": tnames, "variants": [norm_by_def(d, tnames) for d in tdocs]})
+        meta.append({"part": "B", "variant": "two directories, one include spelling, both orders of the named files", "files": two_dirs(1)})
     # C: every analysis order of the base project through H4
     fs = render(base_variant, base)
     kinds = {"Aa": True, "Bb": True, "fc": False, "Dd": True}
